@@ -146,6 +146,31 @@ func c05G1Cases(r *rand.Rand, nFlipEnc int) []bcase {
 			found++
 		}
 	}
+	// on-curve points whose x has its top bit at a 64-bit limb boundary (x = 2^(64j+63) + d), canonical and
+	// with x + p: the two encodings agree with p on the upper limbs and differ from it by >= 2^63 in one limb
+	for j := uint(0); j < 5; j++ {
+		for _, off := range []uint{63, 62, 64} {
+			base := new(big.Int).Lsh(big.NewInt(1), 64*j+off)
+			for d := int64(0); d < 200; d++ {
+				x := new(big.Int).Add(base, big.NewInt(d))
+				y2 := ref.Fp.Add(ref.Fp.Mul(ref.Fp.Mul(x, x), x), big.NewInt(4))
+				y := ref.Fp.Sqrt(y2)
+				if y == nil {
+					continue
+				}
+				pt := ref.G1{X: x, Y: y}
+				if !ref.E1.IsOnCurve(pt) {
+					continue
+				}
+				enc := ref.EncodeG1(pt)
+				cs = append(cs, bcase{append([]byte{}, enc...), "limb-shaped-x"})
+				b := new(big.Int).Add(x, ref.P).FillBytes(make([]byte, 48))
+				b[0] |= enc[0] & 0xE0
+				cs = append(cs, bcase{b, "limb-shaped-x-plus-p"})
+				break
+			}
+		}
+	}
 	return cs
 }
 
@@ -250,6 +275,21 @@ func c05G2Cases(r *rand.Rand, cv ref.Conv, nFlipEnc int) []bcase {
 				cs = append(cs, bcase{t, "x-plus-p"})
 				found++
 			}
+		}
+	}
+	// the coefficient that carries no flag bits has all 384 bits: c + k*p for every k that fits
+	for i := 0; i < 3; i++ {
+		p := ref.E2.Mul(ref.G2Gen, randScalar(r))
+		e := enc(p)
+		v := new(big.Int).SetBytes(e[48:96])
+		for k := int64(1); k <= 9; k++ {
+			vk := new(big.Int).Add(v, new(big.Int).Mul(big.NewInt(k), ref.P))
+			if vk.BitLen() > 384 {
+				break
+			}
+			t := append([]byte{}, e...)
+			vk.FillBytes(t[48:96])
+			cs = append(cs, bcase{t, fmt.Sprintf("second-coefficient-plus-%dp", k)})
 		}
 	}
 	return cs
